@@ -175,6 +175,11 @@ m('c14-r1-false', 'C14', 'C14-R1', 'taiko', (
 m('c14-r2-forget', 'C14', 'C14-R2', 'catch', (
     'src/catch/convert.rs', "    map.mode = GameMode::Catch;\n    map.is_convert = true;", "    map.mode = GameMode::Catch;"))
 
+m('c14-r3-spinner-as-circle', 'C14', 'C14-R3', 'increment_combo', (
+    'src/osu/difficulty/gradual.rs', "            OsuObjectKind::Spinner { .. } => attrs.n_spinners += 1,", "            OsuObjectKind::Spinner { .. } => attrs.n_circles += 1,"))
+m('c14-r3-sibling-combo', 'C14', 'C14-R3', 'siblings', (
+    'src/osu/convert.rs', "                    attrs.max_combo += slider.nested_objects.len() as u32;", "                    attrs.max_combo += (slider.nested_objects.len() as u32).saturating_sub(1);"))
+
 # ---- C15 ----------------------------------------------------------------------------------------------------
 m('c15-r1-last', 'C15', 'C15-R1', 'ManiaGradualPerformance::last', (
     'src/mania/performance/gradual.rs', "        self.nth(state, usize::MAX)", "        self.nth(state, usize::MAX - 1)"))
